@@ -9,7 +9,7 @@
    The accessor clause is proved for ALL words w, not only cards: every accessor of the Rust code
    masks with RANK_FLAG_FILTER (bits 16-28), SUIT_FILTER (bits 12-15) or RANK_PRIME_FILTER
    (bits 0-5), none of which overlaps bits 29-31. *)
-From CKC Require Import Base.Prelude Base.Reflect Spec.Layout Model.Card Proofs.CardFacts Proofs.C11.
+From CKC Require Import Base.Prelude Base.Reflect Spec.Layout Model.Card Proofs.CardBase Proofs.FilterExact Proofs.AccRankSuit Proofs.AccFields Proofs.AccChars Proofs.C11.
 From CKC Require Import Gen.Consts.
 Open Scope N_scope.
 
@@ -231,11 +231,7 @@ Proof.
 Qed.
 
 (* ---- the 52 cards -------------------------------------------------------------------------------------- *)
-Lemma layout_small r s : r < 13 -> s < 4 -> layout r s < 2 ^ 29.
-Proof.
-  intros Hr Hs. pose proof (acc_ok_all r s Hr Hs) as H. unfold acc_ok in H. cbv zeta in H.
-  apply andb_true_iff in H. destruct H as [_ H]. apply N.ltb_lt, H.
-Qed.
+(* layout_small : layout r s < 2^29 is in Proofs/CardBase.v *)
 
 Lemma card_bits r s m : r < 13 -> s < 4 -> In m MARKS ->
   let w := layout r s in
@@ -283,9 +279,8 @@ Lemma card_reads r s m : r < 13 -> s < 4 -> In m MARKS ->
 Proof.
   intros Hr Hs Hm w. subst w.
   destruct (accessors_same m (layout r s) Hm) as (-> & -> & -> & -> & -> & -> & _).
-  pose proof (acc_ok_all r s Hr Hs) as H. unfold acc_ok in H. cbv zeta in H.
-  repeat (apply andb_true_iff in H; destruct H as [H ?]).
-  rewrite ?N.eqb_eq in *. repeat split; assumption.
+  destruct (acc_rank_suit r s Hr Hs) as (A1 & A2 & _). destruct (acc_fields r s Hr Hs) as (A3 & _).
+  destruct (acc_chars r s Hr Hs) as (A4 & A5 & A6). cbv zeta in *. repeat split; assumption.
 Qed.
 
 Lemma card_strip r s m : r < 13 -> s < 4 -> In m MARKS ->
